@@ -8,6 +8,12 @@ def reg(pid, fn, level, text, note, technique, design_ref, engine):
 
 
 def load():
+    _load()
+    apply_extra()
+    return REG
+
+
+def _load():
     from checks import stores, smtp
     reg("C07", stores.c07, "model_checking",
         "TLC checks the Mailstore contract (spec/Mailstore.tla, MCMailstore.tla) exhaustively for small constants; TLC then enumerates "
@@ -167,3 +173,30 @@ def load():
         "TLA+ contract + TLC bounded-exhaustive sequence/schedule enumeration and simulation replayed on the real hub and listeners + TLC trace validation",
         "DESIGN.md 5/C15", "hub")
     return REG
+
+
+# stages added after the first version of each check (appended to the level text of the manifest)
+EXTRA = {
+    "C01": "Also: a body over the size limit in the tour (refused, leaves no envelope), store-fault injection for a share of the dialogues.",
+    "C03": "Also: SmtpImpl.tla, the implementation-shaped session loop, is checked to refine the contract command by command (two deviations found as predicted); "
+           "a STARTTLS family (real TLS negotiation) is judged against the grown contract as a note, not a verdict.",
+    "C05": "Also: address-literal domains in lists and addresses; eight concurrent sessions per configuration group under the race detector.",
+    "C07": "Also: deliveries during which the disk refuses further bytes (RLIMIT_FSIZE) and listings under descriptor exhaustion (RLIMIT_NOFILE) on the file store.",
+    "C09": "Also: after-events of every history (exactly one 'deleted' per message that left), walk completeness (a walk is shown every mailbox that holds mail throughout), "
+           "two mailboxes of one hash directory emptied and refilled concurrently, a damaged index next to a healthy bucket mate; MemStoreImpl refines ConcMailstore.",
+    "C12": "Also: rejected schedules are run again in isolation before they are reported; the promptness bound does not grow with the configured pause.",
+    "C13": "Also: idle-timeout family; STLS over several connections (Pop3Tls.tla) as a note stage beyond the statement.",
+    "C14": "Also: fetch-while-delivering (RestRaceTrace.tla): what /latest shows is one message the store held, the latest at some moment of the request; a panic inside the client library is an answer the contract does not know.",
+    "C15": "Also: HubImpl.tla (hub actor + listener close protocol, deviations as predictions), bursts through the extension host incl. a disconnect with buffer and operation queue both full, "
+           "and an end-to-end stage: server.FullAssembly over real SMTP/POP3/HTTP/WebSocket (v1 and v2 monitors, mailbox cap, refused handshakes) validated against the composed contract Inbucket.tla.",
+    "C16": "Also: DispatcherImpl.tla (lanes and drain goroutines, four deviations as predictions), multi-recipient transactions incl. refused ones, a Lua script as the listener, "
+           "removals racing each other, index-write faults at the cap.",
+    "C17": "Also: failing handlers scribble on their argument first; percent signs in deny texts; crash of a concurrent group attributed to the group.",
+    "C19": "Also: a third of the SMTP schedules run against an SMTPS listener with clients that reset the connection; long-pause scanner variant; rejected schedules re-run in isolation.",
+}
+
+
+def apply_extra():
+    for pid, extra in EXTRA.items():
+        if pid in REG and extra not in REG[pid]["text"]:
+            REG[pid]["text"] += "  " + extra
